@@ -230,6 +230,13 @@ let ser_spec line =
   done;
   Buffer.contents b
 
+(* read-only operations on a write-protected tree: no store ever happens (C18) *)
+let rdonly line =
+  let t = item_of_sexp line in
+  let sz = ssize t in
+  let ret = match serialize_into t (if sz = N0 then n_of_int 64 else sz) with Some (r, _) -> string_of_n r | None -> "UB" in
+  Printf.sprintf "size=%s ser=%s getters=ok" (string_of_n sz) ret
+
 let ser line =
   let t = item_of_sexp line in
   let sz = ssize t in
@@ -420,7 +427,7 @@ let () =
     | "dec1" -> dec1 | "enc" -> enc
     | "load" -> load_ (arg 2) (arg 3)
     | "load_spec" -> load_spec_ (arg 2) (arg 3)
-    | "dec1_spec" -> dec1_spec | "ser_spec" -> ser_spec
+    | "rdonly" -> rdonly | "dec1_spec" -> dec1_spec | "ser_spec" -> ser_spec
     | "hist" -> hist (arg 2) (arg 3) Sys.argv.(4) (arg 5)
     | "fault" -> fault_ (arg 2) (arg 3)
     | "ser" -> ser | "utf8" -> utf8 | "utf8_spec" -> utf8_spec | "dfa" -> dfa | "mem" -> mem | "frag" -> frag | "toks" -> toks
